@@ -326,6 +326,17 @@ func verifyFunction(u *Universe, fi *FuncInfo, c *Contract) (obls []*Obligation,
 		st.assume(x.trBool(r.Expr, env))
 	}
 	x.assumeGlobalAxioms(st)
+	for _, ga := range c.GhostAssigns {
+		srt, ok := u.ghostSorts[ga.Var]
+		if !ok {
+			panic(unsupported{"ghost assignment to undeclared ghost variable " + ga.Var})
+		}
+		val := x.trExpr(ga.Expr, env)
+		if val.Sort != srt {
+			panic(unsupported{"ghost assignment sort mismatch for " + ga.Var})
+		}
+		x.setSt(st, ga.Var, val)
+	}
 	// vacuity: the precondition must be satisfiable
 	x.obls = append(x.obls, &Obligation{Func: fi.Name, Name: fi.Name + "#vacuity#entry", Kind: "vacuity", Hyps: append([]*Term(nil), st.pc...), Goal: False, Mode: x.mode, ExpectSat: true, Text: "precondition satisfiable", Pos: c.Pos, LemmaIndex: -1})
 	x.stmtsSeen = countStmts(fi.Body)
